@@ -5,6 +5,7 @@ package checks
 // relaxations as in the rapid checks so that a campaign is not stopped by them.
 
 import (
+	"encoding/json"
 	"strings"
 	"testing"
 	"unicode/utf8"
@@ -322,6 +323,74 @@ func FuzzC20(f *testing.F) {
 			if v, _ := c20Eval(c); v != "" {
 				t.Fatalf("VIOLATION property=C20: %s\ncase: %+v", v, c)
 			}
+		}
+	})
+}
+
+// FuzzC14: a variable type and a JSON variables object, decoded with and without UseNumber;
+// coercion must be total and conforming (same oracle as TestC14).
+func FuzzC14(f *testing.F) {
+	types := []string{"Int", "Int!", "[Int!]", "Float", "String", "ID!", "Boolean", "Color!", "[Color]", "Leaf", "Node!", "[[Leaf]]!", "[Node!]!", "Pick", "[Pick!]", "Date", "[[[Int]]]", "[[String!]!]"}
+	jsons := []string{`{"v0": 1}`, `{"v0": [1, null]}`, `{"v0": {"id": "x", "leaf": {"s": "y", "i": 2}, "tags": [["a"], null]}}`, `{"v0": {"a": 1}}`, `{"v0": {"a": 1, "b": "x"}}`, `{"v0": "RED"}`, `{}`,
+		`{"v0": null}`, `{"v0": 1.5}`, `{"v0": {"__typename": "x", "id": 1}}`, `{"v0": [[{"s": "a"}]]}`, `{"v0": "1"}`, `{"v0": 1e3}`, `{"v0": 99999999999999999999}`, `{"v0": true}`, `{"v0": [[1], 2]}`, `{"v0": {"id": "n", "child": {"id": "m", "e": "red"}}}`}
+	for i, ty := range types {
+		f.Add(ty, jsons[i%len(jsons)], i%2 == 0)
+		f.Add(ty, jsons[(i*7+3)%len(jsons)], i%2 == 1)
+	}
+	f.Fuzz(func(t *testing.T, typ, vars string, useNumber bool) {
+		if len(typ) > 40 || len(vars) > 600 || !utf8.ValidString(typ) || strings.ContainsAny(typ, "){}$@\"#") {
+			return
+		}
+		dec := json.NewDecoder(strings.NewReader(vars))
+		if useNumber {
+			dec.UseNumber()
+		}
+		var v interface{}
+		if err := dec.Decode(&v); err != nil {
+			return
+		}
+		m, ok := v.(map[string]interface{})
+		if !ok {
+			return
+		}
+		c := c14Case{Schema: gen.VarsSchemaTypes + "type Query { probe(p0: " + typ + "): Int }", Query: "query Q($v0: " + typ + ") { probe(p0: $v0) }", Vars: encodeGo(m)}
+		if viol, _, _ := c14Eval(c); viol != "" {
+			t.Fatalf("VIOLATION property=C14: %s\ntype: %s vars: %s useNumber=%v", viol, typ, vars, useNumber)
+		}
+	})
+}
+
+// FuzzC15: a query against the fixed schema and a JSON variables object (used for every
+// operation); argument maps of every field and directive against the reference resolver.
+func FuzzC15(f *testing.F) {
+	qs := []string{`query ($v: Int = 3, $w: [Int]) { a(i: $v, l: $w, ll: [[1], $w]) { n } }`, `query ($c: Color, $f: Filter) { a(c: $c, filter: $f) { n } x: a(filter: {limit: 1, color: $c, nested: $f}) { n } }`,
+		`query ($j: JSON, $b: Boolean = true) { a(j: {k: [$j, 1]}, b: $b) @include(if: $b) { n @skip(if: $b) } }`, `query ($v: Int) { a(nn: $v) { n } ...F } fragment F on Query { a(i: $v) { s } }`,
+		`query ($c: Choice, $i: Int!) { a(choice: $c) { n } y: a(choice: {a: $i}) { n } }`, `{ a(f: 1, id: 2, s: "x", l: 1, ll: 2) { n } node(id: 1) { id } }`}
+	vs := []string{`{}`, `{"v": null, "w": [1, null]}`, `{"v": 7}`, `{"c": "RED", "f": {"limit": 2, "tags": ["a"]}}`, `{"j": {"x": [1, 2]}, "b": false}`, `{"c": {"a": 1}, "i": 5}`, `{"f": {"limit": 1, "nested": {"limit": 2}}}`}
+	for i, q := range qs {
+		for j, v := range vs {
+			if (i+j)%2 == 0 {
+				f.Add(q, v)
+			}
+		}
+	}
+	f.Fuzz(func(t *testing.T, q, vars string) {
+		if len(q) > 500 || len(vars) > 400 || !utf8.ValidString(q) || strings.Count(q, "{") > 40 {
+			return
+		}
+		var v interface{}
+		dec := json.NewDecoder(strings.NewReader(vars))
+		dec.UseNumber()
+		if err := dec.Decode(&v); err != nil {
+			return
+		}
+		m, ok := v.(map[string]interface{})
+		if !ok {
+			return
+		}
+		e := encodeGo(m)
+		if viol, _, _, _ := c15Eval(c15Case{Schema: c08Schema, Query: q, Vars: []interface{}{e, e, e}}); viol != "" {
+			t.Fatalf("VIOLATION property=C15: %s\nquery: %q vars: %s", viol, q, vars)
 		}
 	})
 }
